@@ -2,6 +2,7 @@
    them are still in flight, and which peer messages may be released.  Events are what a
    chain::Watch / message observer sees.  No Mathlib. -/
 import LdkModel.Generated.MonGate
+import LdkModel.Generated.CloseGate
 namespace Ldk.MonGate
 
 inductive Kind where
@@ -103,6 +104,13 @@ structure Chan where
   csFirst : Bool
   deriving Repr, Inhabited, DecidableEq
 
+/-- ChannelState::can_generate_new_commitment (TRANSLATED, Generated/CloseGate.lean) on the state the Gate model tracks: variant ChannelReady
+    with the MONITOR_UPDATE_IN_PROGRESS and PEER_DISCONNECTED flags of the channel (the Gate scenarios have no quiescence / no send while
+    awaiting the peer's revoke_and_ack is attempted: those flags are clear) -/
+def Chan.canGenerateNewCommitment (c : Chan) : Bool :=
+  Ldk.CloseGate.Gen.canGenerateNewCommitment 3
+    { Ldk.CloseGate.Gen.Flags.none with monitorUpdateInProgress := c.paused, peerDisconnected := c.disconnected }
+
 def Chan.init (k : Nat) : Chan :=
   { latest := k, blocked := [], inFlight := [], cmPending := [], nextHand := k + 1, paused := false,
     pend := Gen.Pend.empty, disconnected := false, csFirst := false }
@@ -190,7 +198,7 @@ def step (c : Chan) : Op → Chan × List Out
       let j := Gen.claimJump c.blocked own
       handOver { c1 with blocked := j.2 } j.1 ip
   | .send ip =>
-    if c.paused || c.disconnected then (c, [])
+    if !c.canGenerateNewCommitment then (c, [])
     else queueOrHand { pauseWith c (false, true, false) ([], [], []) with latest := c.latest + 1, csFirst := false } (c.latest + 1) ip
   | .other ip =>
     queueOrHand { pauseWith c Gen.otherPauseArgs ([], [], []) with latest := c.latest + 1 } (c.latest + 1) ip
